@@ -111,6 +111,17 @@ def _pipelined_case(case):
                 if rnd.random() < 0.3:
                     world.sim.sleep(rnd.choice([0.01, 0.06]))
                 return 0
+
+            def on_receive_find(self, context, ds):
+                k = int(str(ds.PatientID))
+
+                def gen():
+                    for j in range(k):
+                        world.sim.sleep(rnd.choice([0.0, 0.05, 0.3]))
+                        d = pydicom.Dataset()
+                        d.PatientName = 'M%d' % j
+                        yield d, 0xFF00
+                return gen()
         srv = world.make_ae(Srv, 'SRV', 11112, [rc.IMPLICIT_LE], 16384)
         srv.timeout = 60
 
@@ -118,12 +129,16 @@ def _pipelined_case(case):
             return sopclass.storage_scp(asce, ctx, msg)
         store2.sop_classes = [CT, MR]
         store2.store_in_file = True
-        srv.add_scp(sopclass.verification_scp).add_scp(store2)
+        srv.add_scp(sopclass.verification_scp).add_scp(store2).add_scp(sopclass.qr_find_scp)
         world.serve_ae(srv, ADDR)
         rqs = []
         for k in range(case['n']):
             mid = (case['mid'] + rnd.choice([0, 1, 1, 2, 7])) & 0xffff if k else case['mid']
-            if rnd.random() < 0.5:
+            r_ = rnd.random()
+            if r_ < 0.2:
+                # (a query whose matches take a while: the next requests arrive meanwhile)
+                rqs.append(dict(kind='find', mid=mid, pcid=5, sop=FIND, nmatch=rnd.randint(0, 3)))
+            elif r_ < 0.6:
                 rqs.append(dict(kind='echo', mid=mid, pcid=rnd.choice([1, 201]),
                                 sop=rc.VERIFICATION))
             else:
@@ -143,6 +158,13 @@ def _pipelined_case(case):
                 if r['kind'] == 'echo':
                     peer.send_message(r['pcid'], {0x0002: r['sop'], 0x0100: 0x0030,
                                                   0x0110: r['mid'], 0x0800: 0x0101})
+                elif r['kind'] == 'find':
+                    q = pydicom.Dataset()
+                    q.PatientName = 'Q*'
+                    q.PatientID = str(r['nmatch'])
+                    peer.send_message(r['pcid'], {0x0002: r['sop'], 0x0100: 0x0020,
+                                                  0x0110: r['mid'], 0x0700: 0, 0x0800: 1},
+                                      enc_ds(q))
                 else:
                     d = pydicom.Dataset()
                     d.SOPClassUID = r['sop']
@@ -154,7 +176,7 @@ def _pipelined_case(case):
                                       max_length=rnd.choice([None, 256]))
                 if (k + 1) % burst == 0:
                     world.sim.sleep(rnd.choice([0.0, 0.01, 0.05]))
-            for _ in rqs:
+            for _ in expect:
                 m = peer.read_message(timeout=100.0)
                 if not isinstance(m, dict) or 'fields' not in m:
                     out['instead'] = m
@@ -162,7 +184,15 @@ def _pipelined_case(case):
                 out['rsps'].append(m)
             if not peer.eof and not peer.reset:
                 peer.release()
+        # one response per request, a query has one per match and a final one
+        expect = []
+        for r in rqs:
+            if r['kind'] == 'find':
+                expect += [dict(r, status=0xFF00)] * r['nmatch'] + [dict(r, status=0)]
+            else:
+                expect.append(dict(r, status=0))
         ctxs = ((1, rc.VERIFICATION, (rc.IMPLICIT_LE,)), (3, CT, (rc.IMPLICIT_LE,)),
+                (5, FIND, (rc.IMPLICIT_LE,)),
                 (11, MR, (rc.IMPLICIT_LE,)), (201, rc.VERIFICATION, (rc.IMPLICIT_LE,)))
         peer = peers.ScriptedRequestor(world.sim, world.net, ADDR, ctxs, script=script)
         world.spawn(peer.run, 'scu', role='user')
@@ -174,13 +204,13 @@ def _pipelined_case(case):
         for e in peer.errors:
             v('peer-saw-protocol-error', e)
         rsps = out['rsps']
-        if len(rsps) != len(rqs):
+        if len(rsps) != len(expect):
             v('request-not-answered outcome=success',
-              '%d requests sent without waiting, %d responses; instead: %r' % (
-                  len(rqs), len(rsps), out.get('instead')))
-        for k, (r, m) in enumerate(zip(rqs, rsps)):
+              '%d requests sent without waiting, %d responses expected, %d received; instead: %r'
+              % (len(rqs), len(expect), len(rsps), out.get('instead')))
+        for k, (r, m) in enumerate(zip(expect, rsps)):
             f = m['fields']
-            want_cf = 0x8030 if r['kind'] == 'echo' else 0x8001
+            want_cf = {'echo': 0x8030, 'store': 0x8001, 'find': 0x8020}[r['kind']]
             if f.get(0x0100) != want_cf:
                 v('response-type-wrong', 'request %d (%s): response %r' % (k, r['kind'],
                                                                          f.get(0x0100)))
@@ -196,9 +226,9 @@ def _pipelined_case(case):
             if r['kind'] == 'store' and f.get(0x1000) != r['inst']:
                 v('sop-instance-not-repeated', 'request %s response %r' % (r['inst'],
                                                                            f.get(0x1000)))
-            if f.get(0x0900) != 0:
-                v('status-not-handler-status outcome=success', 'request %d: %r' % (
-                    k, f.get(0x0900)))
+            if f.get(0x0900) != r['status']:
+                v('status-not-handler-status outcome=success', 'response %d: %r, expected %04x'
+                  % (k, f.get(0x0900), r['status']))
         return _fin(world, viol, case)
     finally:
         world.close()
